@@ -471,9 +471,20 @@ fn world(rng: &mut Rng) -> World {
     if acked > 0 { setup.push(Op::Ack(file, acked)); }
     let inflight = sent - acked;
     // window: anything from 1 to a bit above in-flight; len so that in_flight + len > window
-    let window = rng.range(1, inflight / scale + 3) * scale;
-    let min_len = if window >= inflight { window - inflight + 1 } else { 1 };
-    let len = min_len + rng.below(3) * scale;
+    let (window, len) = match rng.below(16) {
+        // boundaries of the credit rule `in_flight == 0 || in_flight + len <= window` (window stays full: in-flight > 0)
+        0 | 1 => (0, *rng.pick(&[0u64, 0, 1, scale, inflight])),               // stop-and-wait: only in-flight 0 grants
+        2 | 3 => (rng.below(inflight / scale) * scale, 0),                     // zero-length chunk, window < in-flight: an ack landing exactly on `window` grants
+        4 => { let w = rng.range(1, inflight / scale + 2) * scale; (w, w) }    // chunk as large as the window: only in-flight 0 grants
+        5 => { let w = rng.range(1, inflight / scale + 2) * scale; (w, w + 1 + rng.below(3) * scale) } // oversized chunk
+        _ => {
+            // window: anything from 1 to a bit above in-flight; len so that in_flight + len > window
+            let window = rng.range(1, inflight / scale + 3) * scale;
+            let min_len = if window >= inflight { window - inflight + 1 } else { 1 };
+            (window, min_len + rng.below(3) * scale)
+        }
+    };
+    debug_assert!(inflight > 0 && inflight + len > window);
     World { scale, window, chunks, sent, acked, file, len, setup }
 }
 
@@ -550,7 +561,7 @@ fn gen_case(rng: &mut Rng, tmo: bool) -> Case {
                 0 => { reason += 1; Op::Cancel(reason) }
                 1 => Op::Adv(other_file(rng, w.file)),
                 2 => Op::Res(w.file, w.sent),
-                _ => Op::Ack(w.file, w.sent),
+                _ => Op::Ack(w.file, if rng.chance(1, 2) { w.sent } else { (w.sent + w.len).saturating_sub(w.window).min(w.sent) }),
             }
         };
     }
@@ -745,7 +756,9 @@ fn race_round(rng: &mut Rng, i: u64) -> RaceRound {
     let enabling = if reconnect {
         if rng.chance(1, 2) { Op::Res(w.file, *rng.pick(&covered)) } else { Op::Cancel(rng.range(1, 9)) }
     } else {
-        match rng.below(4) { 0 => Op::Cancel(rng.range(1, 9)), 1 => Op::Adv(other_file(rng, w.file)), 2 => Op::Res(w.file, w.sent), _ => Op::Ack(w.file, w.sent) }
+        match rng.below(4) { 0 => Op::Cancel(rng.range(1, 9)), 1 => Op::Adv(other_file(rng, w.file)), 2 => Op::Res(w.file, w.sent),
+            // the smallest sufficient ack (in-flight lands exactly on window - len, or on 0) or everything
+            _ => Op::Ack(w.file, if rng.chance(1, 2) { w.sent } else { (w.sent + w.len).saturating_sub(w.window).min(w.sent) }) }
     };
     let keep_full_below = (w.sent + w.len).saturating_sub(w.window).min(w.sent);
     let style = i % 4;
@@ -919,7 +932,7 @@ fn main() {
     let mut out = Out::new(&args.out);
     out.flush_each = true;
     let mut rng = Rng::new(args.seed);
-    out.rule = "one real thread in wait_for_credit/wait_for_reconnect (deadline 1 h) on a TransferControl whose window is full; the harness waits until /proc shows the waiter asleep (70%) or races its entry (30%); then 1-3 ops (ack: exact/insufficient/capped/stale/foreign, cancel, advance, resume: covered/uncovered/foreign, sent) from 1-3 threads with random yields/spins, signallers serialised by a harness lock (linearisation recorded) or free; values scaled by 1..2^40. Oracles: condition true in the real final state => waiter returns within 10 s; never Timeout; returned value matches a state that occurred. `tmo` cases: 1-31 ms deadline, 0-3 ops that cannot satisfy the condition (many of them notify), spread over the wait, must return Timeout, not before the deadline. `imm` cases: deadline already passed at entry and condition already true: the matching value must be returned, not Timeout. `race` rounds: waiter and signaller released together from a spin barrier, start offset swept (signaller 0-200 spins later / waiter 0-64 spins later / a non-enabling wake-up then the enabling one 0-4000 spins apart), last op makes the condition true, 5 s watchdog. `trk` cases: 300-400 ms deadline, a non-enabling ack every ~deadline/4, must return Timeout no later than deadline + 3 s. Non-trivial = the final state obliges the waiter to return, or a tmo case; distinct by op line (incl. observed order/outcome)".into();
+    out.rule = "one real thread in wait_for_credit/wait_for_reconnect (deadline 1 h) on a TransferControl whose window is full; the harness waits until /proc shows the waiter asleep (70%) or races its entry (30%); then 1-3 ops (ack: exact/insufficient/capped/stale/foreign, cancel, advance, resume: covered/uncovered/foreign, sent) from 1-3 threads with random yields/spins, signallers serialised by a harness lock (linearisation recorded) or free; values scaled by 1..2^40; 3/8 of the worlds sit on a boundary of the credit rule (window 0, chunk_len 0, chunk_len = window, oversized chunk) and enabling acks land in-flight exactly on the grant boundary or on 0. Oracles: condition true in the real final state => waiter returns within 10 s; never Timeout; returned value matches a state that occurred. `tmo` cases: 1-31 ms deadline, 0-3 ops that cannot satisfy the condition (many of them notify), spread over the wait, must return Timeout, not before the deadline. `imm` cases: deadline already passed at entry and condition already true: the matching value must be returned, not Timeout. `race` rounds: waiter and signaller released together from a spin barrier, start offset swept (signaller 0-200 spins later / waiter 0-64 spins later / a non-enabling wake-up then the enabling one 0-4000 spins apart), last op makes the condition true, 5 s watchdog. `trk` cases: 300-400 ms deadline, a non-enabling ack every ~deadline/4, must return Timeout no later than deadline + 3 s. Non-trivial = the final state obliges the waiter to return, or a tmo case; distinct by op line (incl. observed order/outcome)".into();
     let mut idx = 0u64;
     if let Some(lines) = args.replay_ops() {
         for l in lines {
